@@ -26,6 +26,7 @@ type Conf struct {
 	RespLimit  int    `json:"resp_limit"`
 	RespAction string `json:"resp_action"`
 	Mime       string `json:"mime"` // SecResponseBodyMimeType
+	DetOnly    bool   `json:"detection_only,omitempty"` // SecRuleEngine DetectionOnly: limits and rules only record, nothing may interrupt
 }
 
 const (
@@ -43,7 +44,11 @@ func onOff(b bool) string {
 // Directives renders the configuration.
 func (c Conf) Directives() string {
 	var sb strings.Builder
-	sb.WriteString("SecRuleEngine On\n")
+	if c.DetOnly {
+		sb.WriteString("SecRuleEngine DetectionOnly\n")
+	} else {
+		sb.WriteString("SecRuleEngine On\n")
+	}
 	fmt.Fprintf(&sb, "SecRequestBodyAccess %s\n", onOff(c.ReqAccess))
 	fmt.Fprintf(&sb, "SecRequestBodyLimit %d\n", c.ReqLimit)
 	fmt.Fprintf(&sb, "SecRequestBodyLimitAction %s\n", c.ReqAction)
